@@ -14,11 +14,13 @@ e) response writers emit a row only on the true edge of try_accept_row; try_acce
 g) MemTableSource::run visits every passive buffer handed to it: in both loops over passive_memtables each iteration reaches the row-collection call before the next iteration
    (no skip of a busy buffer); no try_lock/try_read/try_write is used by engine::core::read code reachable from scan.
 h) PassiveBufferSet only ever removes buffers with `retain` under an emptiness predicate (MemTable::len) — no drain/remove/truncate/clear of possibly non-empty passive buffers.
+i) flow accounting cannot kill a stream: in FlowMetrics no *unsigned* atomic counter is ever decremented (a receive can be accounted before the matching send, so a decremented counter must be signed);
+   the forwarder task that panicked on the wrapped counter is never joined, which truncated results silently (reproduced under load, fixed).
 f) run_worker_loop awaits on_store inline (no spawn) before the next recv.
 Not decided: the window between publication and release of the passive copy (cross-task atomicity), aggregates not being de-duplicated.
 """
-FLOOR = 12
-REQUIRED = ["C03.a", "C03.b1", "C03.b2", "C03.b3", "C03.c", "C03.d", "C03.e1", "C03.e2", "C03.f", "C03.g", "C03.h"]
+FLOOR = 13
+REQUIRED = ["C03.a", "C03.b1", "C03.b2", "C03.b3", "C03.c", "C03.d", "C03.e1", "C03.e2", "C03.f", "C03.g", "C03.h", "C03.i"]
 FLUSH_TASK = "engine::core::write::flush_worker::FlushWorker::run::{closure#0}::{closure#0}"
 
 
@@ -338,3 +340,26 @@ def run(ctx):
             raise AnchorMissing("retain sites in PassiveBufferSet: %d" % retains)
         return bad
     ctx.run("C03.h", "K4 EFFECT", "PassiveBufferSet", "a passive buffer leaves the set only when it is empty", h)
+
+
+    def i_(inst):
+        ks = [k for k in F.find(r"^engine::core::read::flow::metrics::FlowMetrics::") if "__CALLSITE" not in k]
+        if len(ks) < 5:
+            raise AnchorMissing("FlowMetrics bodies")
+        bad = []
+        subs = 0
+        for k in ks:
+            b = F.fn_exact(k)
+            for c in b.calls:
+                if c.cleanup:
+                    continue
+                raw = (c.name or "") + " " + (c.ga or "")
+                if re.search(r"(Atomic(U64|U32|Usize)|Atomic::<(u64|u32|usize|u16|u8)>)::fetch_sub", raw):
+                    bad.append(("unsigned-counter-decremented:%s" % norm_path(k).split("::")[-1], "%s decrements an unsigned atomic counter (%s): a receive accounted before its send wraps it and the next checked increment panics inside the stream forwarder" % (k, c.nname), None))
+                if re.search(r"(Atomic(I64|I32|Isize)|Atomic::<(i64|i32|isize)>)::fetch_sub", raw):
+                    subs += 1
+        inst.sites = ["signed decrements: %d" % subs]
+        if subs == 0 and not bad:
+            raise AnchorMissing("no pending-counter decrement found in FlowMetrics")
+        return bad
+    ctx.run("C03.i", "K4 EFFECT", "FlowMetrics", "stream accounting cannot panic a forwarder task", i_)
